@@ -29,15 +29,21 @@ where
         {
             println!("\n{{\"processEvent\": {}}}", event.to_json_debug());
         }
+        #[cfg(feature = "verif-hooks")]
+        crate::verif::step(crate::verif::Loop::Sweep);
         sorted_events.push(event.clone());
 
         if operation == Operation::Intersection && event.point.x > rightbound
             || operation == Operation::Difference && event.point.x > sbbox.max.x
         {
+            #[cfg(feature = "verif-hooks")]
+            crate::verif::hit(crate::verif::Site::SubEarlyBreak);
             break;
         }
 
         if event.is_left() {
+            #[cfg(feature = "verif-hooks")]
+            crate::verif::hit(crate::verif::Site::SubLeft);
             sweep_line.insert(event.clone());
 
             let maybe_prev = sweep_line.prev(&event);
@@ -51,6 +57,8 @@ where
                     println!("{{\"seNextEvent\": {}}}", next.to_json_debug());
                 }
                 if possible_intersection(&event, next, event_queue) == 2 {
+                    #[cfg(feature = "verif-hooks")]
+                    crate::verif::hit(crate::verif::Site::SubRecomputeNext);
                     // Recompute fields for current segment and the one above (in bottom to top order)
                     compute_fields(&event, maybe_prev, operation);
                     compute_fields(next, Some(&event), operation);
@@ -63,6 +71,8 @@ where
                     println!("{{\"sePrevEvent\": {}}}", prev.to_json_debug());
                 }
                 if possible_intersection(prev, &event, event_queue) == 2 {
+                    #[cfg(feature = "verif-hooks")]
+                    crate::verif::hit(crate::verif::Site::SubRecomputePrev);
                     let maybe_prev_prev = sweep_line.prev(prev);
                     // Recompute fields for current segment and the one below (in bottom to top order)
                     compute_fields(prev, maybe_prev_prev, operation);
@@ -70,6 +80,8 @@ where
                 }
             }
         } else if let Some(other_event) = event.get_other_event() {
+            #[cfg(feature = "verif-hooks")]
+            crate::verif::hit(crate::verif::Site::SubRight);
             // This debug assert is only true, if we compare segments in the sweep line
             // based on identity (curently), and not by value (done previously).
             debug_assert!(
@@ -87,6 +99,8 @@ where
                         println!("{{\"sePostNextEvent\": {}}}", next.to_json_debug());
                         println!("{{\"sePostPrevEvent\": {}}}", prev.to_json_debug());
                     }
+                    #[cfg(feature = "verif-hooks")]
+                    crate::verif::hit(crate::verif::Site::SubRemovalNeighbourCheck);
                     possible_intersection(&prev, &next, event_queue);
                 }
 
@@ -97,6 +111,8 @@ where
                 sweep_line.remove(&other_event);
             }
         }
+        #[cfg(feature = "verif-hooks")]
+        crate::verif::observe_status(&event, &sweep_line);
     }
 
     sorted_events
